@@ -255,13 +255,14 @@ pub fn op(p: &Profile, depth: u32, in_cb: bool, d: &mut Dec) -> Op {
             Op::FailNext { src, step }
         }
         6 => Op::Recycle { src: d.u16() },
-        7 => match d.pickw(if in_cb { &[2, 6, 4, 3, 2, 1] } else { &[5, 1, 1, 6, 5, 1] }) {
+        7 => match d.pickw(if in_cb { &[2, 6, 4, 3, 2, 1, 1] } else { &[5, 1, 1, 6, 5, 1, 3] }) {
             0 => Op::Adapt { fd: if d.pickw(&[6, 1]) == 0 { d.u8r(0, 2) } else { 3 }, blocking: d.bool() },
             1 => Op::AsyncDrop { a: d.u16() },
             2 => Op::AsyncIntoInner { a: d.u16() },
             3 => Op::AsyncWait { a: d.u16(), write: d.pct(25) },
             4 => Op::AsyncPeerWrite { a: d.u16(), n: d.u8r(0, 3) },
-            _ => Op::AsyncOwnRead { a: d.u16() },
+            5 => Op::AsyncOwnRead { a: d.u16() },
+            _ => Op::AsyncGive { a: d.u16(), tok: d.u16() },
         },
         8 => Op::InsertBad { which: d.u8r(0, 2) },
         9 => match d.pickw(&[5, 4, 1]) {
